@@ -175,6 +175,8 @@ type W struct {
 	Accts  []Acct
 	Denoms []string
 	parser *adapterctrl.JSONParser
+	// InstOnly: packets run on the instrumented instance only (it has controllers the wired app lacks)
+	InstOnly bool
 }
 
 func New(s *sim.Sim, extra ...ExtraAction) (*W, error) {
@@ -477,7 +479,7 @@ func (w *W) RunOp(ctx sdk.Context, op Op) (o OpObs) {
 	o.Before = w.Snap(ctx)
 	switch op.Kind {
 	case "recv":
-		faulty := len(op.Plan) > 0 || op.Lie != 0
+		faulty := len(op.Plan) > 0 || op.Lie != 0 || w.InstOnly
 		if op.Twin {
 			o.Twin = w.twin(ctx, op)
 		}
